@@ -14,6 +14,7 @@ import (
 	"strconv"
 	"strings"
 	"sync"
+	"sync/atomic"
 	"time"
 
 	"golang.org/x/net/bpf"
@@ -47,18 +48,27 @@ type Script struct {
 	Path        map[string][]Reply `json:"path"` // ttl -> replies; "*" default for unlisted TTLs
 	Inject      []Inject           `json:"inject"`
 	Faults      []Fault            `json:"faults"`
-	Filter      bool               `json:"filter"`    // apply the real classic-BPF programs the code installs
-	Loop        bool               `json:"loop"`      // deliver the run's own probes to the capture handles
-	PerFlow     bool               `json:"per_flow"`  // rewrite symbolic router addresses per flow
-	FloodN      int                `json:"flood_n"`   // irrelevant packets injected per flood tick
-	FloodUs     int64              `json:"flood_us"`  // tick period
+	Filter      bool               `json:"filter"`   // apply the real classic-BPF programs the code installs
+	Loop        bool               `json:"loop"`     // deliver the run's own probes to the capture handles
+	PerFlow     bool               `json:"per_flow"` // rewrite symbolic router addresses per flow
+	FloodN      int                `json:"flood_n"`  // irrelevant packets injected per flood tick
+	FloodUs     int64              `json:"flood_us"` // tick period
 	FloodKind   string             `json:"flood_kind"`
 	SackPerm    bool               `json:"sack_perm"`
 	SackTS      bool               `json:"sack_ts"`
 	NoSynack    bool               `json:"no_synack"`
 	SynackUs    int64              `json:"synack_us"`
-	ISN         uint32             `json:"isn"` // forged ack of the SYN-ACK (local initial sequence the probes build on)
+	ISN         uint32             `json:"isn"`           // forged ack of the SYN-ACK (local initial sequence the probes build on)
 	FlowDelayUs []int64            `json:"flow_delay_us"` // extra reply delay per flow index
+	// Unsync: the sink shares NO state with the capture handles (the harness must not add a happens-before edge
+	// between the sender and the receiver goroutine that real sockets do not have); replies are pre-seeded from a
+	// template probe built from the predictable flow identity.
+	Unsync   bool   `json:"unsync"`
+	TVariant string `json:"t_variant"`
+	TEID     int    `json:"t_eid"`
+	TDPort   int    `json:"t_dport"`
+	TLocal   string `json:"t_local"`
+	TTarget  string `json:"t_target"`
 }
 
 type handle struct {
@@ -94,16 +104,17 @@ type Wire struct {
 	timers  []*time.Timer
 	stopped bool
 	// SACK
-	Listener  net.Listener
-	accepted  []net.Conn
-	Accepts   int
-	sackFlow  *Flow
-	sackByPort map[int]*Flow
-	Target    netip.Addr
-	OnProbe   func(v pkt.View)
-	ownerless []byte
+	Listener                     net.Listener
+	accepted                     []net.Conn
+	Accepts                      int
+	sackFlow                     *Flow
+	sackByPort                   map[int]*Flow
+	Target                       netip.Addr
+	OnProbe                      func(v pkt.View)
+	ownerless                    []byte
 	FloodArrived, FloodDelivered int
-	Millis bool
+	Millis                       bool
+	seeded                       bool
 }
 
 type flowState struct {
@@ -209,9 +220,77 @@ func Uninstall() {
 	packets.VerifNewSource = nil
 }
 
+type unsyncSink struct {
+	n      atomic.Int64
+	closed atomic.Int32
+}
+
+func (s *unsyncSink) WriteTo(b []byte, ap netip.AddrPort) error { s.n.Add(1); return nil }
+func (s *unsyncSink) Close() error                              { s.closed.Add(1); return nil }
+
+// template builds the probe the code under test will emit for ttl from the predictable flow identity.
+func (w *Wire) template(ttl int, sport int, isn uint32) []byte {
+	sc := w.script
+	local, target := mustAddr(sc.TLocal), mustAddr(sc.TTarget)
+	ip := pkt.IP{V6: local.Is6(), Src: local, Dst: target, TTL: uint8(ttl)}
+	switch sc.TVariant {
+	case "icmp4", "icmp6":
+		m := pkt.ICMP{Type: 8, Body: []byte{byte(ttl)}}
+		ip.Proto, ip.ID = 1, uint16(sc.TEID)
+		if ip.V6 {
+			m.Type, ip.Proto, ip.ID = 128, 58, 0
+		}
+		be.PutUint16(m.Rest[0:2], uint16(sc.TEID))
+		be.PutUint16(m.Rest[2:4], uint16(ttl))
+		return pkt.BuildIP(ip, pkt.BuildICMP(ip.V6, local, target, m))
+	case "udp4", "udp6":
+		ip.Proto = 17
+		pl := []byte("NSMNC\x00\x00\x00")
+		if ip.V6 {
+			pl = make([]byte, 5+ttl)
+		} else {
+			ip.ID = uint16(41821 + ttl)
+			ip.FlagsFO = 0x4000
+		}
+		return pkt.BuildIP(ip, pkt.BuildUDP(local, target, pkt.UDP{SPort: uint16(sport), DPort: uint16(sc.TDPort), Payload: pl}))
+	default: // sack
+		ip.Proto, ip.ID = 6, 41821
+		t := pkt.TCP{SPort: uint16(sport), DPort: uint16(sc.TDPort), Seq: isn + uint32(ttl), Ack: 0x0badc0de + 1, Flags: pkt.ACK | pkt.PSH, Win: 1024, Payload: []byte{byte(ttl)}}
+		return pkt.BuildIP(ip, pkt.BuildTCP(local, target, t))
+	}
+}
+
+// seedUnsync schedules the scripted injections against template probes (called from the receiver side only).
+func (w *Wire) seedUnsync(sport int, isn uint32) {
+	if w.seeded {
+		return
+	}
+	w.seeded = true
+	fl := Flow{Local: mustAddr(w.script.TLocal), Target: mustAddr(w.script.TTarget), RemoteISN: 0x0badc0de, LocalISN: isn}
+	for _, in := range w.script.Inject {
+		in := in
+		at := time.Duration(in.AtUs)*time.Microsecond - time.Since(w.start)
+		if at < 0 {
+			at = 0
+		}
+		enc, err := in.Reply.Encode(w.template(in.ForTTL, sport, isn), fl)
+		if err != nil {
+			continue
+		}
+		for c := 0; c <= in.Dup; c++ {
+			w.after(at+time.Duration(int64(c)*in.DupUs)*time.Microsecond, enc, "inj:"+in.Tag, in.ForTTL)
+		}
+	}
+}
+
 func (w *Wire) newSink(addr netip.Addr) (packets.Sink, error) {
 	w.mu.Lock()
 	defer w.mu.Unlock()
+	if w.script.Unsync {
+		w.runs++
+		w.goRun[goid()] = w.runs
+		return &unsyncSink{}, nil
+	}
 	w.runs++
 	run := w.runs
 	w.goRun[goid()] = run
@@ -235,6 +314,9 @@ func (w *Wire) newSource() (packets.Source, error) {
 	h := &handle{id: len(w.handles) + 1, kind: "source", run: run, w: w, notify: make(chan struct{}, 1)}
 	w.handles = append(w.handles, h)
 	w.log("Open", "h", h.id, "kind", "source", "run", run)
+	if w.script.Unsync && w.script.TVariant != "sack" {
+		w.seedUnsync(40000, 0)
+	}
 	return (*source)(h), nil
 }
 
@@ -702,6 +784,9 @@ func (w *Wire) sackAccept(s *source) {
 		}
 		w.sackByPort[int(ra.Port())] = fl
 		w.log("Accept", "lport", int(ra.Port()), "local", fl.Local.String(), "isn", pkt.U32(fl.LocalISN))
+		if w.script.Unsync {
+			w.seedUnsync(int(ra.Port()), fl.LocalISN)
+		}
 		if w.script.NoSynack {
 			continue
 		}
